@@ -53,6 +53,7 @@ structure DState where
   mon    : DMon := {}
   evicts : List (String × String × Nat) := []   -- evictions the store reported in this record, not yet applied to the model
   ptoks  : List String := []                    -- their tokens (echoed in the model's observation)
+  win    : Bool := false                        -- `racerg`: the harness reports that the write was parked inside the window
 
 def getSess (d : DState) (n : String) : Option DSess := d.sess.find? (·.name == n)
 
@@ -484,6 +485,42 @@ def modelOp (d : DState) (toks : List String) : Option OpOut :=
         let s1 := if res == .broken then { s1 with dead := true } else s1
         let (d2, s2) := settle d1 s1
         { d := putSess d2 s2, snaps := [n] }
+  | "racerg" :: rest =>
+    -- the write is held between its routing section and its delivery section while the GET runs (`win=1`, a tree with the
+    -- yield hook); without the hook (`win=0`) the write simply completes first
+    match rest.span (· != "|") with
+    | ([n, r, x, kind, flag, serial], _ :: (gn :: gargs)) =>
+      some <| withSess d n fun s =>
+        let rid := r.toNat?.getD 0
+        let tag := ".".intercalate [n, r, x, flag, serial]
+        let isCall := kind == "C"
+        let ctx := if flag == "c" then some rid else none
+        let msg : Msg String := if isCall then .call ("C." ++ tag) else .notif ("N." ++ tag)
+        let g : Label String := .get (parseHdr s (kvGet gargs "last")) (parseVer (kvGet gargs "hv")) (parseBudget (kvGet gargs "b"))
+        if gn != n then { d := d, snaps := [n] } else
+        let win := d.win
+        let (d1, s1, res) :=
+          if win then
+            let (da, sa, r1) := applyLabels d s [.wroute msg ctx false]
+            if r1 != .na then
+              -- refused by the routing section: nothing pending
+              let (db, sb, _) := applyLabels da sa [g]
+              (db, sb, r1)
+            else
+              let (db, sb, _) := applyLabels da sa [g]
+              let dc := applyEvicts (putSess db sb)
+              match getSess dc n with
+              | some sc => applyLabels dc sc [.wdeliver sa.conn.pendW.length.pred]
+              | none => (dc, sb, Res.na)
+          else
+            let db := applyEvicts d
+            match getSess db n with
+            | some sb => applyLabels db sb [.write msg ctx false, g]
+            | none => (db, s, Res.na)
+        let s1 := if isCall && res == .ok then { s1 with calls := s1.calls ++ [(tag, ctx, false)] } else s1
+        let (d2, s2) := settle d1 s1
+        { d := putSess d2 s2, snaps := [n], tail := " w=" ++ showRes res isCall ++ " win=" ++ (if win then "1" else "0") }
+    | _ => none
   | "racewg" :: rest | "racegw" :: rest =>
     let writeFirst := toks.head? == some "racewg"
     match rest.span (· != "|") with
@@ -620,7 +657,7 @@ def originOf (toks : List String) : String × Mon.Origin :=
   | some "listen" => (opSess, .post ((kvGet toks "id").bind String.toNat?).toList true true)
   | some "call" => (opSess, .post (parseIds (kvGet toks "ids")) false np)
   | some "get" => (opSess, .get (parseHdrObs (kvGet toks "last")) np)
-  | some "racewg" | some "racegw" =>
+  | some "racewg" | some "racegw" | some "racerg" =>
     let g := toks.dropWhile (· != "|")
     ((g[1]?).getD opSess, .get (parseHdrObs (kvGet g "last")) np)
   | _ => (opSess, .post [] false np)
@@ -689,7 +726,7 @@ def engine (prop : String) : Engine DState where
       if d.cfg.isNone then (d, { model := "nocfg" }) else
       -- evictions are choices of the store (they depend on byte sizes): the model takes them from the record
       let itoks0 := words impl
-      let d := { d with evicts := parsePurges itoks0, ptoks := itoks0.filter (·.startsWith "p:") }
+      let d := { d with evicts := parsePurges itoks0, ptoks := itoks0.filter (·.startsWith "p:"), win := itoks0.contains "win=1" }
       -- (they happen inside `Append`, before the new entry is added: for a plain op they take effect at its end —
       -- nothing in it reads the store after an append —, the race ops place them between their two parties)
       match modelOp d toks with
